@@ -223,16 +223,16 @@ theorem div_pow_of_div_pow (a b t h : Nat) (hab : a / 2 ^ t = b / 2 ^ t) (hth : 
   rw [Nat.pow_add, ← Nat.div_div_eq_div_mul, ← Nat.div_div_eq_div_mul, hab]
 
 /-- state of `new_ap_digests` after the leafs `S` have been mutated; `g0` the leaf list at the start, `g` now -/
-structure Inv (n : Nat) (g0 g : Nat → D) (S : List Nat) (m : AMap D) : Prop where
+structure Inv (n : Nat) (g0 g : Nat → D) (S : List Nat) (φ : Nat → Option D) : Prop where
   inb : ∀ i ∈ S, i < n
   agree : ∀ k, k ∉ S → g k = g0 k
-  keys : ∀ k v, m.get? k = some v → ∃ i ∈ S, ∃ t, (t < (locate n i).1 ∨ t = 0) ∧ k = nodeIdx t (i / 2 ^ t)
-  vals : ∀ i ∈ S, ∀ t, (t < (locate n i).1 ∨ t = 0) → m.get? (nodeIdx t (i / 2 ^ t)) = some (sub H g t (i / 2 ^ t))
+  keys : ∀ k v, φ k = some v → ∃ i ∈ S, ∃ t, (t < (locate n i).1 ∨ t = 0) ∧ k = nodeIdx t (i / 2 ^ t)
+  vals : ∀ i ∈ S, ∀ t, (t < (locate n i).1 ∨ t = 0) → φ (nodeIdx t (i / 2 ^ t)) = some (sub H g t (i / 2 ^ t))
 
-theorem Inv.empty (n : Nat) (g : Nat → D) : Inv H n g g [] ([] : AMap D) where
+theorem Inv.empty (n : Nat) (g : Nat → D) (φ : Nat → Option D) (hφ : ∀ k, φ k = none) : Inv H n g g [] φ where
   inb := by intro i hi; simp at hi
   agree := by intros; rfl
-  keys := by intro k v h; rw [AMap.get?_nil] at h; cases h
+  keys := by intro k v h; rw [hφ] at h; cases h
   vals := by intro i hi; simp at hi
 
 theorem stored_le {n i t : Nat} (h : t < (locate n i).1 ∨ t = 0) : t ≤ (locate n i).1 := by omega
@@ -240,10 +240,10 @@ theorem stored_le {n i t : Nat} (h : t < (locate n i).1 ∨ t = 0) : t ≤ (loca
 /-- **the sibling digest is always the current one**: for a leaf `i` and a level `t` below its peak, the digest of
     the sibling block found in the map — or, if there is none, the digest from a path valid at the start — is the
     root of that block in the current leaf list -/
-theorem Inv.sibling {n : Nat} {g0 g : Nat → D} {S : List Nat} {m : AMap D} (inv : Inv H n g0 g S m) (hn : n < 2 ^ 63)
+theorem Inv.sibling {n : Nat} {g0 g : Nat → D} {S : List Nat} {φ : Nat → Option D} (inv : Inv H n g0 g S φ) (hn : n < 2 ^ 63)
     (i t : Nat) (hi : i < n) (ht : t < (locate n i).1) :
-    (m.get? (nodeIdx t (sibBlk (i / 2 ^ t)))).getD (sub H g0 t (sibBlk (i / 2 ^ t))) = sub H g t (sibBlk (i / 2 ^ t)) := by
-  cases hget : m.get? (nodeIdx t (sibBlk (i / 2 ^ t))) with
+    (φ (nodeIdx t (sibBlk (i / 2 ^ t)))).getD (sub H g0 t (sibBlk (i / 2 ^ t))) = sub H g t (sibBlk (i / 2 ^ t)) := by
+  cases hget : φ (nodeIdx t (sibBlk (i / 2 ^ t))) with
   | some v =>
     obtain ⟨i', hi', t', hst, hk⟩ := inv.keys _ _ hget
     have hb := nodeIdx_lt_of_height n i' t' (inv.inb i' hi') hn (stored_le hst)
@@ -268,12 +268,12 @@ theorem Inv.sibling {n : Nat} {g0 g : Nat → D} {S : List Nat} {m : AMap D} (in
     cases this
 
 /-- one more mutated leaf -/
-theorem Inv.step {n : Nat} {g0 g : Nat → D} {S : List Nat} {m m' : AMap D} (inv : Inv H n g0 g S m) (hn : n < 2 ^ 63)
+theorem Inv.step {n : Nat} {g0 g : Nat → D} {S : List Nat} {φ φ' : Nat → Option D} (inv : Inv H n g0 g S φ) (hn : n < 2 ^ 63)
     (i : Nat) (d : D) (hi : i < n) (hiS : i ∉ S)
     (U1 : ∀ s, (s < (locate n i).1 ∨ s = 0) →
-      m'.get? (nodeIdx s (i / 2 ^ s)) = some (sub H (Function.update g i d) s (i / 2 ^ s)))
-    (U2 : ∀ k, (∀ s, (s < (locate n i).1 ∨ s = 0) → k ≠ nodeIdx s (i / 2 ^ s)) → m'.get? k = m.get? k) :
-    Inv H n g0 (Function.update g i d) (i :: S) m' where
+      φ' (nodeIdx s (i / 2 ^ s)) = some (sub H (Function.update g i d) s (i / 2 ^ s)))
+    (U2 : ∀ k, (∀ s, (s < (locate n i).1 ∨ s = 0) → k ≠ nodeIdx s (i / 2 ^ s)) → φ' k = φ k) :
+    Inv H n g0 (Function.update g i d) (i :: S) φ' where
   inb := by
     intro i' hi'
     rcases List.mem_cons.mp hi' with rfl | h
@@ -323,13 +323,30 @@ abbrev applyL (g : Nat → D) (ms : List (Nat × D)) : Nat → D := ms.foldl (fu
 abbrev mkMuts (g0 : Nat → D) (n : Nat) (ms : List (Nat × D)) : List (LeafMutation D) :=
   ms.map fun p => ⟨p.1, p.2, authPathOf H g0 n p.1⟩
 
+/-- the digests of a from-scratch path are the roots of the sibling blocks, level by level -/
+theorem authPathOf_getElem? (g0 : Nat → D) (n i : Nat) : ∀ s d', (authPathOf H g0 n i)[s]? = some d' →
+    s < (locate n i).1 ∧ d' = sub H g0 s (sibBlk (i / 2 ^ s)) := by
+  have hlen : (authPathOf H g0 n i).length = (locate n i).1 := by unfold authPathOf; rw [sibPath_length]
+  intro s d' hs
+  have hlt : s < (locate n i).1 := by
+    have := (List.getElem?_eq_some_iff.mp hs).1
+    omega
+  refine ⟨hlt, ?_⟩
+  obtain ⟨c, hc⟩ := Nat.exists_eq_add_of_le (Nat.succ_le_of_lt hlt)
+  unfold authPathOf at hs
+  rw [hc, show s.succ + c = s + (1 + c) by omega, sibPath_split H g0 s (1 + c) 0 i,
+    List.getElem?_append_right (by simp [sibPath_length]), sibPath_length, Nat.sub_self,
+    show 1 + c = c + 1 by omega] at hs
+  simp only [sibPath, Nat.zero_add, List.getElem?_cons_zero, Option.some.injEq] at hs
+  exact hs.symm
+
 /-- one mutation of the loop: the climb re-establishes the invariant and delivers the new root of the leaf's tree -/
-theorem climb_step {n : Nat} {g0 g : Nat → D} {S : List Nat} {m : AMap D} (inv : Inv H n g0 g S m) (hn : n < 2 ^ 63)
+theorem climb_step {n : Nat} {g0 g : Nat → D} {S : List Nat} {m : AMap D} (inv : Inv H n g0 g S m.get?) (hn : n < 2 ^ 63)
     (i : Nat) (d : D) (hi : i < n) (hiS : i ∉ S) :
     m.get? (nodeIdx 0 i) = none ∧
     ∃ m', deducible H none false true false (authPathOf H g0 n i) (nodeIdx 0 i) d (AMap.insert m (nodeIdx 0 i) d)
         = some (m', sub H (Function.update g i d) (locate n i).1 (i / 2 ^ (locate n i).1)) ∧
-      Inv H n g0 (Function.update g i d) (i :: S) m' := by
+      Inv H n g0 (Function.update g i d) (i :: S) m'.get? := by
   have hb0 : nodeIdx 0 i < 2 ^ 64 := by
     have := nodeIdx_lt_of_height n i 0 hi hn (Nat.zero_le _)
     simpa using this
@@ -350,19 +367,7 @@ theorem climb_step {n : Nat} {g0 g : Nat → D} {S : List Nat} {m : AMap D} (inv
     have : 2 ^ 63 ≤ 2 ^ (locate n i).1 := Nat.pow_le_pow_right (by omega) (by omega)
     omega
   have hlen : (authPathOf H g0 n i).length = (locate n i).1 := by unfold authPathOf; rw [sibPath_length]
-  have hget : ∀ s d', (authPathOf H g0 n i)[s]? = some d' → s < (locate n i).1 ∧ d' = sub H g0 s (sibBlk (i / 2 ^ s)) := by
-    intro s d' hs
-    have hlt : s < (locate n i).1 := by
-      have := (List.getElem?_eq_some_iff.mp hs).1
-      omega
-    refine ⟨hlt, ?_⟩
-    obtain ⟨c, hc⟩ := Nat.exists_eq_add_of_le (Nat.succ_le_of_lt hlt)
-    unfold authPathOf at hs
-    rw [hc, show s.succ + c = s + (1 + c) by omega, sibPath_split H g0 s (1 + c) 0 i,
-      List.getElem?_append_right (by simp [sibPath_length]), sibPath_length, Nat.sub_self,
-      show 1 + c = c + 1 by omega] at hs
-    simp only [sibPath, Nat.zero_add, List.getElem?_cons_zero, Option.some.injEq] at hs
-    exact hs.symm
+  have hget := authPathOf_getElem? H g0 n i
   obtain ⟨m', hrun, hv, hk⟩ := climb_spec H (Function.update g i d) (authPathOf H g0 n i) 0 i
     (AMap.insert m (nodeIdx 0 i) d) (by omega)
     (by rw [hlen, Nat.zero_add]; exact nodeIdx_lt_of_height n i _ hi hn (Nat.le_refl _))
@@ -392,9 +397,9 @@ theorem climb_step {n : Nat} {g0 g : Nat → D} {S : List Nat} {m : AMap D} (inv
     exact AMap.get?_insert_ne _ _ _ _ (fun h => this h.symm)
 
 theorem mutationsLoop_spec (n : Nat) (hn : n < 2 ^ 63) (g0 : Nat → D) : ∀ (ms : List (Nat × D)) (S : List Nat)
-    (g : Nat → D) (m : AMap D), Inv H n g0 g S m → (∀ p ∈ ms, p.1 < n ∧ p.1 ∉ S) → (ms.map (·.1)).Nodup →
+    (g : Nat → D) (m : AMap D), Inv H n g0 g S m.get? → (∀ p ∈ ms, p.1 < n ∧ p.1 ∉ S) → (ms.map (·.1)).Nodup →
     ∃ m', mutationsLoop H true n (mkMuts H g0 n ms) m (peaks H n g) = some (m', peaks H n (applyL g ms)) ∧
-      Inv H n g0 (applyL g ms) ((ms.map (·.1)).reverse ++ S) m' := by
+      Inv H n g0 (applyL g ms) ((ms.map (·.1)).reverse ++ S) m'.get? := by
   intro ms
   induction ms with
   | nil => intro S g m inv _ _; exact ⟨m, by simp [mkMuts, mutationsLoop], by simpa using inv⟩
@@ -482,7 +487,7 @@ theorem replace_sibPath (g0 g : Nat → D) (m : AMap D) : ∀ (u l j : Nat),
 
 /-- the per-proof loop: every tracked path valid at the start becomes the path valid at the end, and exactly the
     changed ones are reported -/
-theorem batchReplaceLoop_spec {n : Nat} {g0 g : Nat → D} {S : List Nat} {m : AMap D} (inv : Inv H n g0 g S m)
+theorem batchReplaceLoop_spec {n : Nat} {g0 g : Nat → D} {S : List Nat} {m : AMap D} (inv : Inv H n g0 g S m.get?)
     (hn : n < 2 ^ 63) : ∀ (lis : List Nat) (i0 : Nat), (∀ i ∈ lis, i < n) →
     batchReplaceLoop m false (lis.map (authPathOf H g0 n)) lis i0
       = some (lis.map (authPathOf H g n),
@@ -578,7 +583,7 @@ theorem batchMutateLeafAndUpdateMps_spec (g : Nat → D) (n : Nat) (ms : List (N
           (List.range lis.length).filter fun k =>
             decide (authPathOf H (applyL g ms) n (lis.getD k 0) ≠ authPathOf H g n (lis.getD k 0))) := by
   have hnd' : (ms.reverse.map (·.1)).Nodup := by rw [List.map_reverse]; exact nodup_rev _ hnd
-  obtain ⟨m', hloop, inv⟩ := mutationsLoop_spec H n hn g ms.reverse [] g [] (Inv.empty H n g)
+  obtain ⟨m', hloop, inv⟩ := mutationsLoop_spec H n hn g ms.reverse [] g [] (Inv.empty H n g _ AMap.get?_nil)
     (fun p hp => ⟨hms p (List.mem_reverse.mp hp), by simp⟩) hnd'
   rw [applyL_reverse ms g hnd] at hloop inv
   have hrep := batchReplaceLoop_spec H inv hn lis 0 hlis
